@@ -1338,24 +1338,29 @@ theorem ConfZip.take : ∀ {vs : List Val} {ts : Tys} (n : Nat), ConfZip ct vs t
   | _, _, n + 1, .cons hv h => by simp only [List.take_succ_cons, Tys.take]; exact .cons hv (ConfZip.take n h)
 
 /-- the value of a literal slice bound -/
-def boundVal : Option Nat → Val
+def boundVal : Option Int → Val
   | some n => .int n
   | none => .none
 
-theorem sliceBound_boundVal (b : Option Nat) : sliceBound (boundVal b) = .ok (b.map Int.ofNat) := by
+theorem sliceBound_boundVal (b : Option Int) : sliceBound (boundVal b) = .ok b := by
   cases b <;> rfl
 
-theorem clampIndex_nat (n k : Nat) : clampIndex n (k : Int) = min k n := by
-  simp only [clampIndex]
-  split
-  · omega
-  · simp
+theorem clampIdx_eq (n : Nat) (i : Int) : clampIdx n i = clampIndex n i := rfl
 
-theorem sliceList_nat {α : Type} (xs : List α) (lo hi : Option Nat) :
-    sliceList xs (lo.map Int.ofNat) (hi.map Int.ofNat) =
-      (xs.drop (match lo with | some i => min i xs.length | none => 0)).take
-        ((match hi with | some i => min i xs.length | none => xs.length) - (match lo with | some i => min i xs.length | none => 0)) := by
-  cases lo <;> cases hi <;> simp [sliceList, clampIndex_nat]
+/-- a literal bound evaluates to the number the handler reads -/
+theorem literalBound_eval {W : World} {ρ : VEnv} {e : Expr} {b : Option Int} {v : Val} (hb : literalBound e = some b)
+    (hv : eval W ρ e = .ok v) : v = boundVal b := by
+  unfold literalBound at hb
+  split at hb
+  · cases hb; simp only [eval] at hv; cases hv; rfl
+  · cases hb; simp only [eval] at hv; cases hv; rfl
+  · cases hb
+    simp only [eval, bind, Except.bind, evalFactor, asInt?] at hv
+    cases hv; rfl
+  · cases hb
+    simp only [eval, bind, Except.bind, evalFactor, asInt?] at hv
+    cases hv; rfl
+  · cases hb
 
 theorem evalSlice_conf {u : Ty} {elo ehi : Expr} {vr lo hi v : Val} (hs : sliceShapeOk u elo ehi = true) (hr : Conf ct vr u)
     (hlo : ∀ b, literalBound elo = some b → lo = boundVal b) (hhi : ∀ b, literalBound ehi = some b → hi = boundVal b)
@@ -1384,7 +1389,7 @@ theorem evalSlice_conf {u : Ty} {elo ehi : Expr} {vr lo hi v : Val} (hs : sliceS
     simp only [evalSlice, sliceBound_boundVal] at h
     simp only [bind, Except.bind, pure, Except.pure, Except.ok.injEq] at h
     subst h
-    simp only [onSlice, hbl, hbh, Tys.slice, sliceList_nat, ← hvs.length]
+    simp only [onSlice, hbl, hbh, Tys.slice, sliceList, clampIdx_eq, ← hvs.length]
     exact .tuple (ConfZip.take _ (ConfZip.drop _ hvs))
   | _ => simp [sliceShapeOk] at hs
 
@@ -2125,12 +2130,8 @@ theorem sound_expr (hW : WorldConf ct W) : ∀ (e : Expr) (Γ : Env) (ρ : VEnv)
     obtain ⟨vlo, hvlo, hev⟩ := bind_ok_inv hev
     obtain ⟨vhi, hvhi, hev⟩ := bind_ok_inv hev
     have hcr := sound_expr hW r Γ ρ Tr vr h.1.1.1 henv hTr hvr
-    have hblo : ∀ b, literalBound lo = some b → vlo = boundVal b := by
-      intro b hb
-      cases lo <;> simp only [literalBound] at hb <;> first | (cases hb; simp only [eval] at hvlo; cases hvlo; rfl) | (cases hb)
-    have hbhi : ∀ b, literalBound hi = some b → vhi = boundVal b := by
-      intro b hb
-      cases hi <;> simp only [literalBound] at hb <;> first | (cases hb; simp only [eval] at hvhi; cases hvhi; rfl) | (cases hb)
+    have hblo : ∀ b, literalBound lo = some b → vlo = boundVal b := fun b hb => literalBound_eval hb hvlo
+    have hbhi : ∀ b, literalBound hi = some b → vhi = boundVal b := fun b hb => literalBound_eval hb hvhi
     rcases (hcr.stripNullable hW.no_None) with hcr' | rfl
     · exact evalSlice_conf h2 hcr' hblo hbhi hev
     · simp only [evalSlice] at hev; cases hev
